@@ -380,16 +380,37 @@ class Ref:
                 self.rule('sequence-with-other-tag-rejected')
                 raise _Fail('sequence tagged %s at a list position' % node.tag)
             self.rule('list')
-            return [self.process(x, untkey(rt[1])) for x in node.value]
+            out, failed = [], None
+            for x in node.value:
+                # keep going after a failure: every constructible sub-object
+                # is built (C04 matches constructor calls against these)
+                try:
+                    out.append(self.process(x, untkey(rt[1])))
+                except _Fail as e:
+                    failed = failed or e
+            if failed is not None:
+                raise failed
+            return out
         if k in ('dict', 'map', 'mmap'):
             if node.tag != S.TAG_MAP:
                 self.rule('mapping-with-other-tag-rejected')
                 raise _Fail('mapping tagged %s at a dict position' % node.tag)
             self.rule('dict')
-            out = {}
+            out, failed = {}, None
             for kn, vn in node.value:
-                key = self.process(kn, untkey(rt[1]))
-                out[key] = self.process(vn, untkey(rt[2]))
+                key = val = None
+                try:
+                    key = self.process(kn, untkey(rt[1]))
+                except _Fail as e:
+                    failed = failed or e
+                try:
+                    val = self.process(vn, untkey(rt[2]))
+                except _Fail as e:
+                    failed = failed or e
+                if failed is None:
+                    out[key] = val
+            if failed is not None:
+                raise failed
             return out
         if k == 'cls':
             return self.construct_class(node, rt[1])
